@@ -185,6 +185,11 @@ def write_evidence(pid, cfg, tier, seed, results, violations, known_hits, inconc
         cov['distinct_nontrivial'] = bounded_nt
         cov['rule'] = cfg.get('rule', 'bounded-exhaustive enumeration, see bounded_standins')
         cov['exhaustive'] = True
+    if harness_ev and bounded_ev:
+        cov['harness_evaluations'] = harness_ev
+        cov['harness_nontrivial'] = harness_nt
+        cov['rule'] += ('; evaluations / distinct_nontrivial count the cases of the bounded units only - the %d Kani harnesses of the non-bounded units '
+                        '(one harness = one function contract checked for all symbolic field values) are counted under harness_evaluations' % harness_ev)
     if harness_ev and not bounded_ev:
         cov['evaluations'] = harness_ev
         cov['distinct_nontrivial'] = harness_nt
